@@ -375,6 +375,45 @@ func runC14(r *engine.Run) {
 		})
 	}
 
+	// ---- every configuration of a band (repeater x dwell-time) with custom channels of every kind of
+	// data-rate range (the CFList range, the highest data-rate only, 0..0, 0..1, 1..1): three custom
+	// channels, every enable/disable pattern of them, every device subset
+	for _, name := range bandNames {
+		init := snapOf(newBand(bandCfg{name, false, lorawan.DwellTimeNoLimit}))
+		if !init.SupportsExtraChannels {
+			continue
+		}
+		name := name
+		nStd := len(init.UplinkChannels)
+		r.PartDims("configurations/"+string(name), []string{"repeater:2", "dwell-time:2", "custom channel DR range{cflist, 6..6, 0..0, 0..1, 1..1}", "enabled custom channels: 2^3", fmt.Sprintf("device subset: 2^%d (inner)", nStd+4)}, 2*2*5*8, func(c *engine.Case) {
+			i := c.Index
+			cfg := bandCfg{name, i%2 == 1, []lorawan.DwellTime{lorawan.DwellTimeNoLimit, lorawan.DwellTime400ms}[(i/2)%2]}
+			rng := [][2]int{{init.CFListMinDR, init.CFListMaxDR}, {6, 6}, {0, 0}, {0, 1}, {1, 1}}[(i/4)%5]
+			pat := int(i / 20)
+			b := newBand(cfg)
+			base := init.UplinkChannels[0].Frequency
+			for k := 0; k < 3; k++ {
+				b.AddChannel(base+10000000+uint32(k)*200000, rng[0], rng[1])
+			}
+			for k := 0; k < 3; k++ {
+				if pat&(1<<uint(k)) == 0 {
+					b.DisableUplinkChannelIndex(nStd + k)
+				}
+			}
+			s := snapOf(b)
+			n := len(s.UplinkChannels)
+			for sub := 0; sub < 1<<uint(n+1); sub++ {
+				var dev []int
+				for k := 0; k <= n; k++ {
+					if sub&(1<<uint(k)) != 0 {
+						dev = append(dev, k)
+					}
+				}
+				c14Pair(c, name, b, s, fmt.Sprintf("%v, custom channels DR%d..%d, enabled pattern %03b", cfg, rng[0], rng[1], pat), dev)
+			}
+		})
+	}
+
 	// ---- dynamic plans grown far past 16 channels (up to the 8 blocks a ChMaskCntl of 0..7 can address):
 	// histories of up to 125 AddChannel calls; the generic block rule must hold in every block
 	sizes := []int{17, 32, 33, 49, 64, 65, 81, 96, 97, 112, 113, 128}
